@@ -15,7 +15,9 @@ class C05(Property):
         cases = []
         k = 0
         while len(cases) < n:
-            opts, names = gen.gen_options(rng, allow_catch=False)
+            opts, names = gen.gen_options(rng, features=("alt", "adj", "cmd", "pos", "grp"), allow_catch=False)
+            # a group of required members that is optional / defaulted / repeated as a whole, given only in part
+            cases.extend(self.partial_groups(rng, opts, k))
             for _ in range(3):
                 base = gen.gen_argv(rng, opts)
                 gid = "g%d" % k
@@ -51,6 +53,41 @@ class C05(Property):
                     argv = base[:i] + [base[i]] + base[i:]
                     cases.append(Case(gid + "d", opts, argv, tags={"role": "dup", "group": gid, "pos": i}))
         return cases
+
+    @staticmethod
+    def partial_groups(rng, opts, k):
+        """Lines on which a wrapped group (construct! of required members under optional/fallback/fallback_with/many) of the
+        TOP level is given only in part, next to an otherwise generated sentence."""
+        out = []
+        top = [x for x in (opts["p"]["fields"] if opts["p"]["k"] == "con" else [opts["p"]])
+               if x["k"] in ("optional", "fallback", "fallback-with", "many") and x["p"]["k"] == "con"
+               and all(m["k"] in ("flag", "arg") for m in x["p"]["fields"])]
+        for gi, g in enumerate(top[:2]):
+            members = g["p"]["fields"]
+            for j in range(2):
+                try:
+                    pieces = gen.gen_pieces(rng, opts, present_p=0.7)
+                except Exception:
+                    continue
+                # drop every occurrence of the group from the top level, then add some (not all) members once
+                pieces = [p for p in pieces if not (p.kind == "chunk" and p.level == 0 and any(p.chunk.node is m for m in members))]
+                keep = rng.sample(members, rng.randrange(1, len(members)))
+                given, marks = [], []
+                for m in keep:
+                    if m["k"] == "flag":
+                        given.append([gen.spell_flag(rng, m)])
+                    else:
+                        v = gen.gen_value(rng, m["ty"], valid=True)
+                        if v.startswith(b"-") or v == b"":
+                            v = b"w" + v.lstrip(b"-")
+                        nm = (b"--" + m["n"]["long"][0].encode()) if m["n"]["long"] else (b"-" + m["n"]["short"][0].encode())
+                        given.append([nm + b"=" + v] if len(nm) > 2 or len(m["n"]["short"][0].encode()) == 1 else [nm, v])
+                        if m["ty"] == "string":
+                            marks.append(v)
+                argv = [i for gv in given for i in gv] + gen.flatten(pieces)
+                out.append(Case("g%dq%d_%d" % (k, gi, j), opts, argv, tags={"role": "partial", "group": "g%dq" % k, "marks": marks,
+                                                                          "given": [i for gv in given for i in gv]}))
+        return out
 
     def judge(self, cases, model, impl):
         out = []
@@ -95,6 +132,16 @@ class C05(Property):
                                                                                           " ".join(mine[:2])[:200])))
             elif role == "dup":
                 dist["dup"] += 1
+            elif role == "partial":
+                dist["partial"] = dist.get("partial", 0) + 1
+                ic = impl.get(c.id)
+                if compare.impl_class(ic) == "OK":
+                    nontrivial.append(c.line())
+                    lost = [m for m in c.tags["marks"] if ("(bytes %s)" % gen.hx(m)) not in ic[1]]
+                    if lost:
+                        out.append(Finding("violation", c, "part of a group of required members was given (%r); the run yields a value in "
+                                                           "which the given value(s) %r do not occur: the items were silently dropped (%s)"
+                                           % (c.tags["given"], lost, ic[1][:300])))
         stats = {"nontrivial_ids": nontrivial, "distribution": dist,
                  "rule": "random invariant-respecting definitions (alternatives, optional/repeated groups, adjacent groups, "
                          "subcommands) x sentences generated from the definition x single-item insertions of undeclared "
